@@ -95,6 +95,13 @@ def get_scoped_setup_inputs(
             return None
         # if it's an operation
         else:
+            # ops with regions may use further values inside of their regions that we don't track
+            if val.owner.regions:
+                print(
+                    f"Op with regions in use-def chain upwards of setup {setup_op}: {val.owner}",
+                    file=sys.stderr,
+                )
+                return None
             # we check that it's effect free
             if is_side_effect_free(val.owner):
                 if val.owner in inputs:
